@@ -731,7 +731,7 @@ func (s *Session) ModelLine(line string) string {
 		}
 		return fmt.Sprintf("flushtrace %s %s 40 %s %s", t[1], t[2], exact, tr)
 	}
-	if t[0] == "diffc" {
+	if t[0] == "diffc" || t[0] == "diffcr" {
 		return "diff " + strings.Join(t[1:], " ")
 	}
 	if len(t) >= 2 && (t[0] == "canonroot" || t[0] == "canonshape") {
